@@ -41,6 +41,29 @@ def _num(v):
     return v
 
 
+def slot(k):
+    """the configuration slot a key names: 'vary_rounds', 'all__vary_rounds' and 'context__...' spellings share slots"""
+    parts = k.split("__")
+    if len(parts) == 1:
+        return (None, None, parts[0])
+    if len(parts) == 2:
+        cat, scheme, key = None, parts[0], parts[1]
+    else:
+        cat, scheme, key = parts[0] or None, parts[1], "__".join(parts[2:])
+    if scheme in ("all", "context"):
+        scheme = None
+    return (cat, scheme, key)
+
+
+def merge(base, delta):
+    """base updated by delta the way CryptContext.update() does it: a new value REPLACES whatever spelling of the same slot
+    the configuration held (a plain dict.update would keep both spellings, and their order would decide)"""
+    taken = {slot(k) for k in delta if k != "schemes"}
+    out = {k: v for k, v in base.items() if k == "schemes" or k in delta or slot(k) not in taken}
+    out.update(delta)
+    return out
+
+
 class PolicyModel:
     def __init__(self, config: dict, facts: dict):
         self.schemes = list(config["schemes"])
